@@ -85,7 +85,7 @@ class DimensionBinaryPartition(Partition):
         parent.update_children(children_list)
 
         if newlayer:
-            self.node_list.append(children_list)
+            self.node_list.append(list(children_list))
             self.depth += 1
         else:
             self.node_list[parent.get_depth() + 1] += children_list
